@@ -164,7 +164,7 @@ fn record(rep: &Report, s: &str, sig: &str) {
 }
 
 pub fn run(rep: &Arc<Report>) {
-    let n = if rep.thorough() { 7 } else { 5 };
+    let n = if rep.thorough() { 7 } else { 6 };
     let nw = crate::util::n_workers();
     // watchdog: worker w publishes the input it is working on
     let slots: Arc<Vec<(AtomicU64, Mutex<String>)>> =
